@@ -181,12 +181,9 @@ MUTANTS = [
       "            if not self.block_hash_tree[0]: # empty -- no root node yet\n",
       "            if self.block_hash_tree.needed_hashes(blocknum):\n                self.block_hash_tree.set_hashes(blockhashes)\n"
       "            if not self.block_hash_tree[0]: # empty -- no root node yet\n", "C45.10"),
-    M("root-seeded-only-for-first-block", CK,
+    M("root-seeded-only-with-new-share-hashes", CK,
       "            if not self.block_hash_tree[0]: # empty -- no root node yet\n",
-      "            if blocknum == 0 and not self.block_hash_tree[0]: # empty -- no root node yet\n", "C45.10"),
-    M("root-of-unclaimed-share", CK,
-      "        self.sharenum = sharenum\n        self.bucket = bucket\n",
-      "        self.sharenum = sharenum % share_hash_tree.num_leaves if False else 0\n        self.bucket = bucket\n", "C45.10"),
+      "            if self.share_hash_tree.needed_hashes(self.sharenum): # no share hash yet\n", "C45.10"),
     M("block-tree-rebuilt-per-block", CK,
       "        sharehashes, blockhashes, blockdata = results\n        try:\n            sharehashes = dict(sharehashes)",
       "        sharehashes, blockhashes, blockdata = results\n"
